@@ -42,12 +42,13 @@ type e3Scenario struct {
 	Clients  [][]e3Call `json:"clients"`
 	Strategy int        `json:"strategy"`
 	Sticky   int        `json:"sticky"`
+	UnlockY  bool       `json:"unlock_yields,omitempty"`
 	PCTDepth int        `json:"pct_depth"`
 }
 
 func e3Gen(r *rand.Rand, tier string) any {
 	sc := &e3Scenario{Strategy: []int{simrt.StratUniform, simrt.StratUniform, simrt.StratSticky, simrt.StratPCT, simrt.StratRoundRobin}[r.IntN(5)],
-		Sticky: []int{50, 90, 99}[r.IntN(3)], PCTDepth: 1 + r.IntN(3)}
+		Sticky: []int{50, 90, 99}[r.IntN(3)], PCTDepth: 1 + r.IntN(3), UnlockY: r.IntN(2) == 0}
 	nc := 2 + r.IntN(5)
 	nk := 1 + r.IntN(3)
 	sc.Caches = 1 + r.IntN(4)/3
@@ -130,7 +131,7 @@ func e3Exec(scAny any, c *simcheck.Ctx) *simcheck.Violation {
 	if len(sc.Clients) == 0 {
 		return nil
 	}
-	cfg := simrt.Config{Sched: c.Tapes.Get("sched"), Misc: c.Tapes.Get("misc"), Strategy: sc.Strategy, StickyNum: sc.Sticky, PCTDepth: sc.PCTDepth, PCTEst: 120, MaxSteps: 50000}
+	cfg := simrt.Config{Sched: c.Tapes.Get("sched"), Misc: c.Tapes.Get("misc"), Strategy: sc.Strategy, StickyNum: sc.Sticky, PCTDepth: sc.PCTDepth, PCTEst: 120, MaxSteps: 50000, UnlockYields: sc.UnlockY}
 	if c.Trace {
 		cfg.TraceMax = 2000
 	}
